@@ -21,6 +21,7 @@ import (
 	"fmt"
 	"log"
 	"os"
+	"reflect"
 	"time"
 
 	"github.com/Comcast/sheens/core"
@@ -211,6 +212,11 @@ func (i *Interpreter) Exec(ctx context.Context, bs match.Bindings, props core.St
 		switch vv := x.(type) {
 		case goja.Value:
 			x = vv.Export()
+		}
+
+		if err = checkPlain(x); err != nil {
+			// Will end up as a Javascript exception.
+			panic(err)
 		}
 
 		if x, err = core.Canonicalize(x); err != nil {
@@ -410,9 +416,95 @@ func (i *Interpreter) Exec(ctx context.Context, bs match.Bindings, props core.St
 		// (Don't print the value itself: it can be cyclic.)
 		return nil, fmt.Errorf("a %T isn't Bindings", x)
 	}
+	// The bindings become the machine's state, which the matcher,
+	// the JSON encoder and others traverse recursively.
+	if err = checkPlain(map[string]interface{}(result)); err != nil {
+		return nil, err
+	}
 	exe.Bs = result
 
 	return exe, nil
+}
+
+// MaxDepth is the maximum nesting of a value that a script can return
+// as bindings or emit.  (It is also the deepest nesting that
+// encoding/json is willing to read back.)
+var MaxDepth = 10000
+
+// checkPlain verifies that the given value (what a script returned or
+// emitted) is a finite tree: maps and arrays that do not contain
+// themselves and that are not nested deeper than MaxDepth.
+//
+// A script can easily build a value that is not ('var c = {}; c.self =
+// c'), and recursive consumers of the state (the pattern matcher, the
+// JSON encoder) die with a stack overflow on such a value, which takes
+// the process down.
+func checkPlain(x interface{}) error {
+	var (
+		onPath = make(map[uintptr]bool)
+		done   = make(map[uintptr]int)
+		check  func(x interface{}, depth int) error
+	)
+
+	check = func(x interface{}, depth int) error {
+		var (
+			id       uintptr
+			children func(f func(interface{}) error) error
+		)
+		switch vv := x.(type) {
+		case map[string]interface{}:
+			if len(vv) == 0 {
+				return nil
+			}
+			id = reflect.ValueOf(vv).Pointer()
+			children = func(f func(interface{}) error) error {
+				for _, v := range vv {
+					if err := f(v); err != nil {
+						return err
+					}
+				}
+				return nil
+			}
+		case []interface{}:
+			if len(vv) == 0 {
+				return nil
+			}
+			id = reflect.ValueOf(vv).Pointer()
+			children = func(f func(interface{}) error) error {
+				for _, v := range vv {
+					if err := f(v); err != nil {
+						return err
+					}
+				}
+				return nil
+			}
+		default:
+			return nil
+		}
+
+		if MaxDepth < depth {
+			return errors.New("value is nested too deeply")
+		}
+		if onPath[id] {
+			return errors.New("value is cyclic")
+		}
+		if at, have := done[id]; have && depth <= at {
+			// Shared (not cyclic) and already checked at
+			// least this deep.
+			return nil
+		}
+		onPath[id] = true
+		err := children(func(y interface{}) error {
+			return check(y, depth+1)
+		})
+		delete(onPath, id)
+		if err == nil {
+			done[id] = depth
+		}
+		return err
+	}
+
+	return check(x, 0)
 }
 
 // canonicalize is an abomination
